@@ -360,6 +360,7 @@ pub fn apply(ev: &Value) -> Vec<Value> {
         }
         // ------------------------------------------------------------ instance level
         "seq" => crate::exec_inst::apply_seq(ev),
+        "store" => crate::exec_store::apply_store(ev),
         "chain_encode" => crate::exec_inst::apply_chain_encode(ev),
         _ if crate::exec_inst::handles(name) => crate::exec_inst::apply_one(ev),
         _ if crate::exec_text::handles(name) => crate::exec_text::apply_one(ev),
